@@ -285,7 +285,23 @@ fn process_deposits_for_single_pool<C: ContentAddrStore>(
         .map(|tx| tx.outputs[1].value.0)
         .fold(0u128, |a, b| a.saturating_add(b));
 
-    let total_mtsqrt = total_lefts.sqrt().saturating_mul(total_rights.sqrt());
+    // Each deposit's share of the minted liquidity is proportional to sqrt(left) * sqrt(right). Integer square roots can make
+    // that term over the totals smaller than the sum of the individual terms (two deposits of 4 + 4: 2 * 2 < 2 * 2 + 2 * 2),
+    // which handed out more liquidity tokens than the pool recorded; the divisor is therefore never below that sum.
+    let sum_mtsqrt = deposits
+        .iter()
+        .map(|tx| {
+            tx.outputs[0]
+                .value
+                .0
+                .sqrt()
+                .saturating_mul(tx.outputs[1].value.0.sqrt())
+        })
+        .fold(0u128, |a, b| a.saturating_add(b));
+    let total_mtsqrt = total_lefts
+        .sqrt()
+        .saturating_mul(total_rights.sqrt())
+        .max(sum_mtsqrt);
     // main logic here
     let total_liqs = if let Some(mut pool_state) = state.pools.get(pool) {
         let liq = pool_state.deposit(total_lefts, total_rights);
